@@ -25,7 +25,7 @@ def plan(tier, seed):
 
 def required(tier):
     r = {"ll": 100, "ll_per_bin": 100, "ll_multinom": 100, "optimal_sfs_scaling": 100, "scale-invariant": 100,
-            "multinom-is-max": 100, "mask-removes-term": 100, "autofold": 20, "data-maximises": 30, "linear-residual": 100, "anscombe-residual": 100}
+            "multinom-is-max": 100, "mask-removes-term": 100, "autofold": 20, "data-maximises": 30, "linear-residual": 100, "residual-level-mask": 100, "anscombe-residual": 100}
     if tier != "quick":
         r.update({'ambient-ll_multinom': 20})
     return r
@@ -151,6 +151,19 @@ def run(spec, rec):
             rec.check("linear-residual-mask", good, site="Inference.linear_Poisson_residual", tags=tags)
             if good:
                 rec.close("linear-residual", relerr(np.asarray(r.data)[J], ref[J]), TOL, site="Inference.linear_Poisson_residual", tags=tags)
+        # with a level: entries where both model and data are at or below it are hidden, nothing else is (a zero count under a
+        # model above the level stays visible in the linear residual; the Anscombe one also hides zero counts)
+        level = float(np.quantile(M[J], float(rng.choice([0.2, 0.5])))) if nJ else 0.0
+        for fname, hides_zero in (("linear_Poisson_residual", False), ("Anscombe_Poisson_residual", True)):
+            ok, r = rec.noraise("returns", lambda: getattr(Inference, fname)(model, data, mask=level), site="Inference." + fname, tags=dict(tags, level=True))
+            if ok:
+                rm = np.asarray(np.ma.getmaskarray(r))
+                want = ~J | ((M <= level) & (D <= level))
+                if hides_zero:
+                    want = want | (D == 0)
+                rec.check("residual-level-mask", np.array_equal(rm, want), site="Inference." + fname, tags=dict(tags, level=True),
+                          observed={"hidden_but_should_show": int((rm & ~want).sum()), "shown_but_should_hide": int((~rm & want).sum()),
+                                    "zero_counts_above_level": int((J & (D == 0) & (M > level)).sum())})
         ok, r = rec.noraise("returns", lambda: Inference.Anscombe_Poisson_residual(model, data), site="Inference.Anscombe_Poisson_residual", tags=tags)
         if ok:
             rm = np.asarray(np.ma.getmaskarray(r))
